@@ -57,6 +57,7 @@ type LoopSpec struct {
 	Invariants []*Clause
 	Decreases  *CExpr
 	NoAuto     bool
+	Exits      []*Clause
 }
 
 type Macro struct {
@@ -150,6 +151,12 @@ func loadSpecFile(path string, required bool) {
 			curL = &LoopSpec{Fn: parts[0], Ordinal: n}
 			curF = nil
 			specs.Loops[fmt.Sprintf("%s#%d", parts[0], n)] = curL
+		case "exit":
+			if curL == nil {
+				fatal("%s: exit outside loop", where)
+			}
+			labels, src := splitLabels(rest)
+			curL.Exits = append(curL.Exits, &Clause{Kind: "exit", Labels: labels, E: parseCExpr(src, where), Src: src, Where: where})
 		case "requires", "ensures", "invariant":
 			labels, src := splitLabels(rest)
 			e := parseCExpr(src, where)
